@@ -12,12 +12,13 @@
                               unchanged, makes it TERMINAL (wait budget exhausted) or is the start above
      C03_tasks_run_in_running (with the invariant RUNNING task => RUNNING stage, see C06) RunTask executes a task
                               only if the task is RUNNING (guard regenerated from run_task/handler.py)
+   C03_no_execution_in_not_started_stage  whole-run invariant (EngineNS): no task executes in a NOT_STARTED stage, ever
    OPEN: that no OTHER handler moves a NOT_STARTED stage to RUNNING is part of C06_commit_legal's case analysis
          (Signal: from SUSPENDED; suspend-with-buffered-signal: from RUNNING) but is not restated here. *)
 From Coq Require Import List Bool Arith ZArith.
 Import ListNotations.
 From Stab.model Require Import Base StatusM Readiness StageStat Engine.
-From Stab.proofs Require Import ReadinessP StartGuardP EngineP EngineEx SynP.
+From Stab.proofs Require Import ReadinessP StartGuardP EngineP EngineEx SynP EngineNS.
 
 Theorem C03_ready_iff : forall st ups,
   rr_phase (evaluate_readiness st ups false) = P_READY <-> join_condition st ups.
@@ -63,6 +64,30 @@ Theorem C03_start_stage_before_stages_first : forall s i st t,
   filter (initial_at s) (kids s i OwnBefore) = [] /\ new_initial (length (w_stages s)) (new_before s i st) = [].
 Proof. exact first_msgs_start_task. Qed.
 
+(* An invariant of EVERY run (any workflow submitted with all tasks NOT_STARTED; any delivery order, redeliveries, crash
+   cuts, sweeps, cancels, signals, pauses, jumps and operator restarts), by induction over the action list: a stage that
+   is NOT_STARTED has only NOT_STARTED tasks.  It holds only since StartTask refuses a NOT_STARTED stage (c9af2a4). *)
+Theorem C03_not_started_stage_has_no_started_task : forall orc stages wmax acts,
+  Forall (fun st => Forall (fun tk => t_status tk = NOT_STARTED) (s_tasks st)) stages ->
+  ns_ok (run orc (init_state stages wmax) acts).
+Proof. intros. apply ns_run, ns_init. assumption. Qed.
+
+(* Hence no task is ever executed in a stage that has not started: in every reachable state, when RunTask executes a
+   task its stage has left NOT_STARTED - which (C03_start_guard) happens only under the stage's join condition or an
+   explicit jump.  This closes the chain "a stage never runs before its dependencies allow it" for ALL handlers. *)
+Theorem C03_no_execution_in_not_started_stage : forall orc stages wmax acts id i t a p,
+  Forall (fun st => Forall (fun tk => t_status tk = NOT_STARTED) (s_tasks st)) stages ->
+  let s := run orc (init_state stages wmax) acts in
+  h_pre (handle_run_task orc s id i t a) = Some p ->
+  exists st, get_stage s i = Some st /\ s_status st <> NOT_STARTED.
+Proof.
+  intros orc stages wmax acts id i t a p Hi s H.
+  apply pre_run_task in H. destruct H as [_ [_ [st [tk [H1 [H2 [H3 _]]]]]]].
+  exists st. split; [exact H1|].
+  apply (started_task_in_started_stage s i st t tk); [apply C03_not_started_stage_has_no_started_task; exact Hi|exact H1|exact H2|].
+  unfold Gen_Guards.run_task_guard in H3. intros E. rewrite E in H3. discriminate.
+Qed.
+
 (* non-vacuity: a diamond-free chain: B is NOT READY while A runs, READY once A succeeded *)
 Example C03_witness :
   rr_phase (evaluate_readiness (rstage_of (ex_stage [0] 1)) [(0, RUNNING)] false) = P_NOT_READY /\
@@ -78,3 +103,5 @@ Print Assumptions C03_start_stage_only.
 Print Assumptions C03_tasks_run_in_running.
 Print Assumptions C03_parent_tasks_after_before_stages.
 Print Assumptions C03_start_stage_before_stages_first.
+Print Assumptions C03_not_started_stage_has_no_started_task.
+Print Assumptions C03_no_execution_in_not_started_stage.
